@@ -8,10 +8,20 @@ from graphviz import Digraph
 from typing_extensions import assert_never
 
 from hugr.hugr import Hugr
-from hugr.ops import AsExtOp
+from hugr.hugr.base import _order_port_offset
+from hugr.ops import (
+    AsExtOp,
+    Const,
+    DataflowBlock,
+    ExitBlock,
+    FuncDecl,
+    FuncDefn,
+    IncompleteOp,
+    Op,
+)
 from hugr.tys import CFKind, ConstKind, FunctionKind, Kind, OrderKind, ValueKind
 
-from .node_port import InPort, Node, OutPort
+from .node_port import Direction, InPort, Node, OutPort
 
 
 @dataclass(frozen=True)
@@ -206,6 +216,29 @@ class DotRenderer:
     def _out_order_name(self, n: Node) -> str:
         return f"{n.idx}:{self._OUTPUT_PREFIX}None"
 
+    @staticmethod
+    def _num_cells(hugr: Hugr, node: Node, op: Op, direction: Direction) -> int:
+        """Number of port cells of a node: one per port of the operation (whether
+        or not it is connected), and at least one per connected port.
+        """
+        incoming = direction == Direction.INCOMING
+        try:
+            op_ports = _order_port_offset(op, direction)
+            if op_ports is None:
+                match op:
+                    case Const() | FuncDefn() | FuncDecl():
+                        op_ports = 0 if incoming else 1
+                    case DataflowBlock():
+                        op_ports = 1 if incoming else len(op.sum_ty.variant_rows)
+                    case ExitBlock():
+                        op_ports = 1 if incoming else 0
+                    case _:
+                        op_ports = 0
+        except IncompleteOp:
+            # still being built: only the connected ports are known
+            op_ports = 0
+        return max(hugr.num_ports(node, direction), op_ports)
+
     def _viz_node(self, node: Node, hugr: Hugr, graph: Digraph) -> None:
         """Render a (possibly nested) node to a graphviz graph."""
         meta = hugr[node].metadata
@@ -216,8 +249,9 @@ class DotRenderer:
         else:
             data = ""
 
-        in_ports = [str(i) for i in range(hugr.num_in_ports(node))]
-        out_ports = [str(i) for i in range(hugr.num_out_ports(node))]
+        op = hugr[node].op
+        in_ports = [str(i) for i in range(self._num_cells(hugr, node, op, Direction.INCOMING))]
+        out_ports = [str(i) for i in range(self._num_cells(hugr, node, op, Direction.OUTGOING))]
         inputs_row = (
             self._html_ports(in_ports, self._INPUT_PREFIX) if len(in_ports) > 0 else ""
         )
@@ -227,7 +261,6 @@ class DotRenderer:
             else ""
         )
 
-        op = hugr[node].op
         if isinstance(op, AsExtOp) and not self.config.qualify_op_name:
             op_name = op.op_def().name
         else:
